@@ -43,13 +43,72 @@ Proof. vm_compute. reflexivity. Qed.
 Theorem C04_repo_no_other : forallb no_other functions = true.
 Proof. vm_compute. reflexivity. Qed.
 
-(* the table is not empty and has call sites to speak about *)
-Theorem C04_repo_table_nontrivial :
-  Nat.leb 40 (length functions) = true /\
-  Nat.leb 60 (fold_right (fun f n => sk_calls (fbody f) + n) 0 functions) = true /\
-  forallb (fun n => existsb (fun f => String.eqb (fname f) n) functions)
-          ["draw"; "draw_iter"; "fill_solid"; "fill_contiguous"; "clear"; "draw_styled"; "draw_string"; "draw_sub_image"] = true.
+(* ---- the table covers what the property quantifies over, by (function, file) name: every built-in drawable ... *)
+Definition has_fn_with_sites (min_sites : nat) (p : string * string) : bool :=
+  match find_fn functions (fst p) (snd p) with
+  | Some f => Nat.leb min_sites (sk_calls (fbody f))
+  | None => false
+  end.
+
+Theorem C04_repo_covers_builtin :
+  forallb (has_fn_with_sites 1)
+    [("draw_styled", "src/primitives/rectangle/styled.rs:"); ("draw_styled", "src/primitives/circle/styled.rs:");
+     ("draw_styled", "src/primitives/ellipse/styled.rs:"); ("draw_styled", "src/primitives/rounded_rectangle/styled.rs:");
+     ("draw_styled", "src/primitives/triangle/styled.rs:"); ("draw_styled", "src/primitives/polyline/styled.rs:");
+     ("draw_styled", "src/primitives/line/styled.rs:"); ("draw_styled", "src/primitives/arc/styled.rs:");
+     ("draw_styled", "src/primitives/sector/styled.rs:"); ("draw", "src/primitives/styled.rs:");
+     ("draw_thick", "src/primitives/polyline/styled.rs:");
+     ("draw_dotted_rectangle_border_with_dotted_corners", "src/primitives/rectangle/styled.rs:");
+     ("draw_dotted_rectangle_border_in_clockwise_order", "src/primitives/rectangle/styled.rs:");
+     ("draw", "src/primitives/common/scanline.rs:"); ("draw_stroke", "src/primitives/common/styled_scanline.rs:");
+     ("draw_stroke_and_fill", "src/primitives/common/styled_scanline.rs:");
+     ("draw", "src/text/text.rs:"); ("draw_string", "src/mono_font/mono_text_style.rs:");
+     ("draw_whitespace", "src/mono_font/mono_text_style.rs:"); ("draw_string_binary", "src/mono_font/mono_text_style.rs:");
+     ("draw_decorations", "src/mono_font/mono_text_style.rs:");
+     ("draw", "src/image/mod.rs:"); ("draw", "src/image/image_raw.rs:"); ("draw_sub_image", "src/image/image_raw.rs:");
+     ("draw", "src/image/sub_image.rs:"); ("draw_sub_image", "src/image/sub_image.rs:");
+     ("draw", "core/src/drawable.rs:"); ("draw", "src/iterator/mod.rs:")] = true.
+Proof. vm_compute. reflexivity. Qed.
+
+(* ... and every target adapter method and trait default *)
+Theorem C04_repo_covers_adapters :
+  forallb (has_fn_with_sites 1)
+    [("draw_iter", "src/draw_target/clipped.rs:"); ("fill_contiguous", "src/draw_target/clipped.rs:"); ("fill_solid", "src/draw_target/clipped.rs:");
+     ("draw_iter", "src/draw_target/cropped.rs:"); ("fill_contiguous", "src/draw_target/cropped.rs:"); ("fill_solid", "src/draw_target/cropped.rs:");
+     ("draw_iter", "src/draw_target/translated.rs:"); ("fill_contiguous", "src/draw_target/translated.rs:");
+     ("fill_solid", "src/draw_target/translated.rs:"); ("clear", "src/draw_target/translated.rs:");
+     ("draw_iter", "src/draw_target/color_converted.rs:"); ("fill_contiguous", "src/draw_target/color_converted.rs:");
+     ("fill_solid", "src/draw_target/color_converted.rs:"); ("clear", "src/draw_target/color_converted.rs:");
+     ("fill_contiguous", "core/src/draw_target/mod.rs:"); ("fill_solid", "core/src/draw_target/mod.rs:"); ("clear", "core/src/draw_target/mod.rs:")] = true
+  /\
+  (* the three MonoFontDrawTarget impls (Foreground / Background / Both): fill_contiguous and fill_solid each *)
+  forallb (fun pat => Nat.eqb (length (filter (fun f => place_has pat f && place_has "src/mono_font/draw_target.rs:" f
+                                               && (String.eqb (fname f) "fill_contiguous" || String.eqb (fname f) "fill_solid")
+                                               && Nat.leb 1 (sk_calls (fbody f))) functions)) 2)
+          ["Foreground<"; "Background<"; "Both<"] = true.
+Proof. vm_compute. split; reflexivity. Qed.
+
+(* ---- no call site is lost: per file, the number of Call sites in the table equals an INDEPENDENT token census of
+   the whole non-test code of that file (`name(` tokens with a propagating name; Gen.ErrFlow.site_census) *)
+Theorem C04_repo_site_census :
+  forallb (fun p => Nat.eqb (sites_in_file functions (fst p)) (snd p)) site_census = true /\
+  total_sites functions = fold_right (fun p n => snd p + n) 0 site_census /\
+  Nat.leb 60 (total_sites functions) = true.
 Proof. vm_compute. repeat split. Qed.
+
+(* ---- "returned unchanged": `?` / tail calls are the identity on the error value only if caller and callee have the
+   same error type.  Every `impl DrawTarget` of the tree declares `type Error = T::Error` for its own type parameter
+   T: DrawTarget (the wrapped parent) or is infallible, and all seven adapter impls are among them *)
+Theorem C04_repo_adapter_error_is_parent_error :
+  forallb (fun p => match p with (_, ty, par) =>
+                      (String.eqb ty "T::Error" && par) || String.eqb ty "Infallible" || String.eqb ty "core::convert::Infallible"
+                    end) target_error_types = true /\
+  forallb (fun pat => existsb (fun p => match p with (place, ty, par) =>
+                                 (match String.index 0 pat place with Some _ => true | None => false end) && String.eqb ty "T::Error" && par
+                               end) target_error_types)
+          ["src/draw_target/clipped.rs:"; "src/draw_target/cropped.rs:"; "src/draw_target/translated.rs:";
+           "src/draw_target/color_converted.rs:"; "Foreground<"; "Background<"; "Both<"] = true.
+Proof. vm_compute. split; reflexivity. Qed.
 
 Theorem C04_repo_errors_stop_drawing : forall (E : Type) fuel entry o r0 log0, In entry functions ->
   run E functions fuel None entry o = Some (r0, log0) ->
@@ -113,3 +172,29 @@ Proof.
   - unfold find_fn in Ef. apply find_some in Ef. tauto.
   - exists [2; 0; 0]. vm_compute in Ef. inversion Ef; subst entry. vm_compute. reflexivity.
 Qed.
+
+(* a run through seven layers of the repository's own table: Text::draw -> MonoTextStyle::draw_string ->
+   draw_string_binary -> Image::draw -> ImageRaw::draw -> MonoFontDrawTarget<Both>::fill_contiguous ->
+   Clipped::fill_contiguous -> target; then the inter-character fill through MonoFontDrawTarget<Both>::fill_solid and a
+   decoration.  Fuel 6 is not enough (the chain really is 7 deep); the fault at call 1 stops the run there. *)
+Definition ex_deep_oracle : list nat :=
+  let d := dispatch_to functions in
+  [1; d "draw_string" "mono_text_style.rs"; 0; d "draw_string_binary" "mono_text_style.rs"; 2;
+   0; d "draw" "src/image/mod.rs"; d "draw" "src/image/image_raw.rs"; d "fill_contiguous" "Both<";
+   d "fill_contiguous" "src/draw_target/clipped.rs"; 0; 0;
+   1; 0; 0; d "fill_solid" "Both<"; 0; 0;
+   0; d "draw_decorations" "mono_text_style.rs"; 0; 0; 1].
+
+Example C04_example_repo_text_through_clipped :
+  match find_fn functions "draw" "src/text/text.rs" with
+  | Some entry =>
+    run nat functions 6 None entry ex_deep_oracle = None /\
+    match run nat functions 7 None entry ex_deep_oracle, run nat functions 7 (Some (1, 77)) entry ex_deep_oracle with
+    | Some (r0, log0), Some (r1, log1) =>
+      r0 = ROk /\ map fst log0 = ["fill_contiguous"; "fill_solid"; "fill_solid"] /\
+      r1 = RErr 77 /\ log1 = firstn 2 log0
+    | _, _ => False
+    end
+  | None => False
+  end.
+Proof. vm_compute. repeat split. Qed.
